@@ -266,6 +266,20 @@ def resolve_types(ctx, pd):
         h[k] = u
 
 
+GOLINT_INITIALISMS = ["ACL", "API", "ASCII", "CPU", "CSS", "DNS", "EOF", "GUID", "HTML", "HTTP", "HTTPS", "ID", "IP", "JSON", "LHS", "QPS", "RAM",
+                      "RHS", "RPC", "SLA", "SMTP", "SQL", "SSH", "TCP", "TLS", "TTL", "UDP", "UI", "UID", "UUID", "URI", "URL", "UTF8", "VM",
+                      "XML", "XMPP", "XSRF", "XSS"]
+
+
+def exported_py(s):
+    """template_funcs.Exported as specified (pinned): a name that IS an initialism is upper-cased, otherwise the first letter."""
+    if not s:
+        return s
+    if s.upper() in GOLINT_INITIALISMS:
+        return s.upper()
+    return s[0].upper() + s[1:]
+
+
 IDENT_RE = re.compile(r"^[A-Za-z_][A-Za-z0-9_]*$")
 
 
@@ -309,7 +323,9 @@ def guards_of(pd, cfg):
         g = []
         torig = [t["orig"] for t in i["tparams"]]
         tdecl = [t["decl"] for t in i["tparams"]]
-        if torig != tdecl:
+        # decided on the SOURCE name and the specified Exported (whole-name initialism or first letter), not on what the tree
+        # under test declares: a tree that starts renaming KeyId to KeyID must face the oracle
+        if any(exported_py(n) != n for n in torig):
             g.append("c14-tparam-renamed")
         cq, cb = set(), set()
         for t in i["tparams"]:
@@ -623,6 +639,29 @@ class C01Gen(gen_pkgs.DenseGen):
         return super().constraint(prev)
 
     anylike = 0.3
+    TP_NAMES = {"T": "KeyId", "K": "ApiKey", "V": "HttpReq", "E": "XmlT"}
+
+    def iface(self, name, method_names, lower_tparams=False):
+        """Bias: 40 % of the generic interfaces get type-parameter names with a mixed-case golint initialism (KeyId, ApiKey,
+        HttpReq, XmlT) instead of T / K / V / E."""
+        i = super().iface(name, method_names, lower_tparams)
+        if i["tparams"] and not lower_tparams and self.rng.random() < 0.4:
+            ren = self.TP_NAMES
+
+            def walk(x):
+                if isinstance(x, dict):
+                    if x.get("k") == "tparam" and x.get("n") in ren:
+                        x["n"] = ren[x["n"]]
+                    for v in x.values():
+                        walk(v)
+                elif isinstance(x, list):
+                    for v in x:
+                        walk(v)
+            walk(i["methods"]); walk(i["embeds"])
+            for tp in i["tparams"]:
+                walk(tp["c"])
+                tp["n"] = ren.get(tp["n"], tp["n"])
+        return i
 
     def sig(self, tparams, depth, max_params=4, max_results=3, allow_variadic=True):
         """Bias: variadic parameters whose element type merely contains / ends with any or interface{} ([]any, map[string]any,
@@ -658,7 +697,7 @@ def gen_module(rng, k):
 
 
 SHAPES = ["ShapesPlain", "ShapesVariadic1", "ShapesVariadic0", "ShapesVariadic2", "ShapesAllocated", "ShapesGeneric", "ShapesConstraint",
-          "ShapesEmbedded", "ShapesLongUnnamed", "ShapesLongNamed", "ShapesAnonIface", "ShapesAnonConstraint", "ShapesVariadicAnyLike", "ShapesAlias", "ShapesEmpty"]
+          "ShapesEmbedded", "ShapesLongUnnamed", "ShapesLongNamed", "ShapesAnonIface", "ShapesAnonConstraint", "ShapesVariadicAnyLike", "ShapesAlias", "ShapesInitialismParams", "ShapesInitialismParams2", "ShapesEmpty"]
 
 
 def corpus_module():
